@@ -160,6 +160,19 @@ Theorem sphere_faces_outward : forall rad phi0 phi1 th0 th1 : R,
 Proof. exact SphereGeom.sphere_faces_outward. Qed.
 Print Assumptions sphere_faces_outward.
 
+(* hemisphere (rings from the equator, polar angle pi/2, up to the apex; other quad diagonal, opposite winding):
+   apex fan and dome quads face away from the centre of the sphere, the base disc faces away from every point of the
+   axis above it *)
+Theorem hemi_faces_outward : forall rad phiU phiL th0 th1 y : R,
+  0 < rad -> 0 < phiU -> phiU < phiL -> phiL <= PI / 2 -> 0 < th1 - th0 -> th1 - th0 < PI -> 0 < y ->
+  let V (phi th : R) : rvec := (sin phi * cos th * rad, cos phi * rad, sin phi * sin th * rad) in
+  rfaces_away rzero ((0, rad, 0), V phiU th1, V phiU th0) /\
+  rfaces_away rzero (V phiL th0, V phiU th1, V phiL th1) /\
+  rfaces_away rzero (V phiL th0, V phiU th0, V phiU th1) /\
+  rfaces_away (0, y, 0) (rzero, (1 * cos th0 * rad, 0 * rad, 1 * sin th0 * rad), (1 * cos th1 * rad, 0 * rad, 1 * sin th1 * rad)).
+Proof. exact SphereGeom.hemi_faces_outward. Qed.
+Print Assumptions hemi_faces_outward.
+
 (* UVSphere's vertex normal is position/|position|: its side relative to a face is the sign of the same number *)
 Theorem normal_is_position : forall a b c : rvec,
   let n := rfnormal (a, b, c) in rdot n a = rdot n (rsub a rzero) /\ rdot n b = rdot n a /\ rdot n c = rdot n a.
